@@ -73,7 +73,7 @@ CHECKS["C07"] = dict(
          "each of 9 alternative decisions (among them: Open on a session that is still up goes straight on); the counterexamples are replayed as reopen histories by the harnesses of C01, C03, C04, C05, C06, C08, C09, C10 and C18. "
          "LifecycleTrace.tla (direction V): the yield sequences recorded from the real goroutines of every run on the scripted pipe (about 900 per quick run) are validated against Lifecycle.tla - a model step is a "
          "silent step that must be followed by exactly the hook events the code emits; a rejection is model drift (reported in the evidence, not a verdict); corrupted logs must be rejected (binding guard). Rounds 7-8: a 3 ms read delay (Close in bounded time; fix d3b76cd); the standard SSH transport after the device ended the session (the connection must be closed; fix 8588b3d).",
-    note="Trusted: TLC; the gate (15 ms bound) as scheduler; runtime.Stack census (a reader stuck in a transport Read that never returns is not a leak). Genuine defects repaired by fix: commits 31f9756, 46f498f, 9f0231e, 0de6c00, 3360717, a94e4ce, 2c64539, ac60d8f, 2ec7ac6, e610bf3.")
+    note="Trusted: TLC; the gate (15 ms bound) as scheduler; runtime.Stack census (a reader stuck in a transport Read that never returns is not a leak). Genuine defects repaired by fix: commits 31f9756, 46f498f, 9f0231e, 0de6c00, 3360717, a94e4ce, 2c64539, ac60d8f, 2ec7ac6, e610bf3, 9754585 (with C06), d3b76cd, 8588b3d.")
 CHECKS["C04"] = dict(
     category="model_checking", design_ref="DESIGN.md §5 C04, §11",
     technique="TLA+/TLC: Privilege.tla models the AcquirePriv loop (prompt, classify with cache/target/map-order rules, one step) and is checked against the tree-path contract for every rooted "
